@@ -41,6 +41,10 @@ func Equal(a, b any) bool { //nolint: gocyclo
 		}
 		return a == b
 	default:
+		// maps, and structs that contain them, can't be compared with ==
+		if !ra.Comparable() || !rb.Comparable() {
+			return reflect.DeepEqual(a, b)
+		}
 		return a == b
 	}
 }
